@@ -5,8 +5,9 @@
 set -u
 ID=$1; V=$2
 SRC=/tmp/seed-out/$ID/$V
-WT=/tmp/confirm-wt
+WT=${CONFIRM_WT:-/tmp/confirm-wt}
 export CARGO_NET_OFFLINE=true
+[ -n "${CONFIRM_TARGET:-}" ] && export CARGO_TARGET_DIR=$CONFIRM_TARGET
 LOG=/tmp/seed-out/$ID/$V/confirm.log
 : > $LOG
 if [ ! -d $WT ]; then git -C /repo worktree add -q --detach $WT HEAD >>$LOG 2>&1 || exit 2; fi
@@ -33,7 +34,7 @@ if [ $R_CLEAN -eq 0 ] && [ $R_PATCH -ne 0 ] && [ $R_SUITE -eq 0 ]; then
 import json
 m=json.load(open('$SRC/meta.json'))
 m['confirmed']={'demo_on_head':'pass','demo_with_patch':'fail','suite_with_patch':'$SUMMARY'.strip(),
- 'ran':['git apply patch.diff in scratch worktree /tmp/confirm-wt','$DEMO_CMD (clean: exit $R_CLEAN, patched: exit $R_PATCH)','cargo nextest run --workspace --no-fail-fast --offline (patched: exit $R_SUITE)']}
+ 'ran':['git apply patch.diff in scratch worktree $WT','$DEMO_CMD (clean: exit $R_CLEAN, patched: exit $R_PATCH)','cargo nextest run --workspace --no-fail-fast --offline (patched: exit $R_SUITE)']}
 json.dump(m,open('$D/meta.json','w'),indent=1)
 PY
   echo "KEPT $D"
